@@ -338,3 +338,39 @@ func VC_C09_size_mismatch_position() {
 	}
 	verifReached("C09.size-position")
 }
+
+// VC_C09_condition_other_numeric_kind: a condition value of another numeric kind (same
+// size, so it is accepted) is compared with the argument as the number it is - it is not
+// converted (truncated, wrapped, rounded) to the parameter's type first: it matches only
+// an argument that denotes the same number.
+func VC_C09_condition_other_numeric_kind() {
+	eval := func(pattern interface{}, a interface{}, t reflect.Type) (bool, bool) {
+		e := Equals(pattern)
+		if err := e.Resolve([]reflect.Type{t}, false); err != nil {
+			return false, false
+		}
+		r, err := e.Eval([]reflect.Value{reflect.ValueOf(a)}, false)
+		return r, err == nil
+	}
+	switch verifChoice("case", 4) {
+	case 0: // a fraction for an int parameter: no int argument matches
+		n := verifInt("n")
+		r, ok := eval(1.5, n, vTypeOf(0))
+		verifAssert(!ok || !r, "C09.other-kind.fraction-matches-no-int")
+	case 1: // a negative int64 for a uint64 parameter: no argument matches
+		u := verifU64("u")
+		r, ok := eval(int64(-1), u, vTypeOf(uint64(0)))
+		verifAssert(!ok || !r, "C09.other-kind.negative-matches-no-unsigned")
+	case 2: // an unsigned value for an int64 parameter: matches exactly the same number
+		p, a := verifU64("p"), verifInt("a")
+		r, ok := eval(p, int64(a), vTypeOf(int64(0)))
+		if ok {
+			verifAssert(r == (a >= 0 && uint64(a) == p), "C09.other-kind.same-number-only")
+		}
+	default: // same kind: plain equality (control)
+		p, a := verifInt("p"), verifInt("a")
+		r, ok := eval(p, a, vTypeOf(0))
+		verifAssert(ok && r == (p == a), "C09.other-kind.same-kind-is-equality")
+	}
+	verifReached("C09.other-kind")
+}
